@@ -490,10 +490,19 @@ class _AllOptions(Evaluatable[Options]):
         _ = self.evaluate(options)
 
     def keys(self, options: Options) -> Set[str]:
-        return set(options.keys())
+        # the whole dictionary is resolved: the keys its templated strings refer to are
+        # read as well (a reference to a key that is not there fails, as it does
+        # for a single Option)
+        return set(options.keys()).union(
+            *(Template(text).keys(options) for text in _templated_strings(options))
+        )
 
     def explain(self, options: Optional[Options] = None) -> Set[str]:
-        return set() if options is None else set(options.keys())
+        if options is None:
+            return set()
+        return set(options.keys()).union(
+            *(Template(text).explain(options) for text in _templated_strings(options))
+        )
 
     def __repr__(self) -> str:
         return "AllOptions"
